@@ -122,10 +122,10 @@ class VClock:
             # site = caller of time_limit (two frames up: time_limit -> contextlib.__enter__ -> caller)
             site = None
             g = f
-            for _ in range(4):
+            for _ in range(6):
                 if g is None:
                     break
-                if g.f_code.co_name not in ('time_limit', '__enter__', 'alarm'):
+                if g.f_code.co_name not in ('time_limit', '__enter__', 'alarm', '_v_setitimer'):
                     site = (g.f_code.co_name, g.f_lineno)
                     break
                 g = g.f_back
